@@ -320,13 +320,14 @@ def go_harness(ctx, pkg, test, *, env=None, tags="verif", timeout=600, race=Fals
         # through the report file, and never occur on the unchanged tree): real-code behaviour
         head = [l for l in out.splitlines() if l.strip()][:1]
         m = re.search(r"^(panic: .*|fatal error: .*|unexpected fault address.*)$", out, re.M)
-        frames = re.findall(r"^(github.com/panjf2000/gnet/v2[^\s(]*)\(", out, re.M)
-        gframes = [f for f in frames if ".TestVerif" not in f and "internal/vsup" not in f and ".verif" not in f.lower()]
-        if not gframes:
-            raise MachineryError("harness %s/%s crashed outside the code under test:\n%s" % (pkg, test, "\n".join(out.splitlines()[:40])))
+        # where did it die? the first source line of the repository in the crashing goroutine's stack
+        files = re.findall(r"^\t(%s/\S+\.go):(\d+)" % re.escape(REPO), out, re.M)
+        gframes = ["%s:%s" % (os.path.relpath(f, REPO), ln) for f, ln in files[:6]]
+        if not files or os.path.basename(files[0][0]).startswith("zz_verif_") or "/internal/vsup/" in files[0][0]:
+            raise MachineryError("harness %s/%s crashed outside the code under test:\n%s" % (pkg, test, "\n".join(out.splitlines()[:60])))
         rep = {"name": name, "evaluations": 1, "distinct_nontrivial": 0, "samples": [], "extra": {},
                "findings": [{"kind": "violation", "sig": "%s/crash" % name, "count": 1,
-                             "detail": "the test process crashed: %s (gnet frames: %s)" % (m.group(1) if m else head, ", ".join(gframes[:4]) or "none"),
+                             "detail": "the test process crashed: %s (stack: %s)" % (m.group(1) if m else head, ", ".join(gframes[:4]) or "none"),
                              "path": []}], "wall": time.time() - t0, "stdout": out}
         ctx.harness_runs.append({"name": name, "pkg": pkg, "crashed": True})
         ctx.log("harness %s: CRASHED: %s" % (name, m.group(1) if m else head))
